@@ -129,7 +129,11 @@ static void array_checks() {
 		for(size_t i = 0; i < ca.size(); i++) cidx.push_back(ca[i]);
 		for(auto it = ca.begin(); it != ca.end(); ++it) citer.push_back(*it);
 		for(auto it = ca.cbegin(); it != ca.cend(); ++it) criter.push_back(*it);
-		Ev("ArrayObs").raw("vals", jarr({base, base + 1, base + 2, base + 3})).raw("idx", jarr(idx)).raw("iter", jarr(iter))
+		// swap exchanges the contents element by element
+		frg::array<long long, 4> sx = a, sy{{9, 8, 7, 6}};
+		swap(sx, sy);
+		bool swapped = sy == a && sx[0] == 9 && sx[1] == 8 && sx[2] == 7 && sx[3] == 6;
+		Ev("ArrayObs").i("swap_ok", swapped ? 1 : 0).raw("vals", jarr({base, base + 1, base + 2, base + 3})).raw("idx", jarr(idx)).raw("iter", jarr(iter))
 			.raw("cidx", jarr(cidx)).raw("citer", jarr(citer)).raw("cciter", jarr(criter)).i("cfront", ca.front()).i("cback", ca.back())
 			.i("chfront", cha->front()).i("chback", cha->back()).i("cdata0", *ca.data()).i("data0", *a.data()).i("cget3", frg::get<3>(ca))
 			.i("maxsize", (long long)a.max_size()).i("empty", a.empty() ? 1 : 0)
